@@ -686,5 +686,20 @@ mutual
       exact ⟨hoist_WF' e e' hw.1 he, hoistKws_WF' rest rest' hw.2 hr⟩
 end
 
+/-! ### the call of a `{% call %}` block keeps its caller -/
+
+theorem evalCallBlock_eq (hP : P.Lawful) (hs : P.codegenSpecial "static-kwargs-off-for-caller" = true)
+    (name : String) (pos : Exprs) (kws : Kws) (caller : V) (hp : pos.WF) (hk : kws.WF) :
+    evalCallBlockC P m ρ name pos kws caller = evalCallBlockRt P m ρ name pos kws caller := by
+  unfold evalCallBlockC evalCallBlockRt
+  rw [evalCList_eq' m ρ hP pos hp, evalCKws_eq' m ρ hP kws hk]
+  simp [hs, gate]
+
+theorem evalCallBlock_hoist (hP : P.Lawful) (name : String) (pos pos' : Exprs) (kws kws' : Kws) (caller : V)
+    (hp : pos.WF) (hk : kws.WF) (h1 : HoistList P ρ pos pos') (h2 : HoistKws P ρ kws kws') :
+    evalCallBlockRt P m ρ name pos' kws' caller = evalCallBlockRt P m ρ name pos kws caller := by
+  unfold evalCallBlockRt
+  rw [hoistList_rt' m ρ hP pos pos' hp h1, hoistKws_rt' m ρ hP kws kws' hk h2]
+
 end
 end MJ.Fold
